@@ -37,6 +37,11 @@ func genScenarios(r *rng) []*scenario {
 					out = append(out, genOutbox(r, ty, k))
 				}
 			}
+		case "deliver":
+			for i := 0; i < *pubN; i++ {
+				k++
+				out = append(out, genDeliver(r, k))
+			}
 		case "gate":
 			out = append(out, gateScenarios(r, *pubGate)...)
 		case "gettypes":
